@@ -342,6 +342,81 @@ theorem select_monotone {p : Proj} (g : Good p) {a b : List String} (ha : a ≠ 
   rw [selected_eq_closure g.1 g.2.2 hb eb]
   exact reach_mono sub ((selected_eq_closure g.1 g.2.2 ha ea x).1 hx)
 
+/-! ## `WithServicesDisabled` and `WithSelectedServices`: inclusion, not commutation -/
+
+theorem mem_keys_dropDeps {ns : List String} {s : Svc} {y : String} (h : y ∈ keys (dropDeps ns s).deps) :
+    y ∈ keys s.deps ∧ y ∉ ns := by
+  unfold dropDeps at h
+  obtain ⟨v, hv⟩ := mem_keys.1 h
+  have := List.mem_filter.1 hv
+  exact ⟨mem_keys.2 ⟨v, this.1⟩, by simpa using this.2⟩
+
+/-- an edge of the walk after `WithServicesDisabled ns` is an edge of the walk before it, between services outside `ns` -/
+theorem edge_disable {p : Proj} {ns : List String} {pol : Policy} {x y : String}
+    (e : Edge (withServicesDisabled p ns).services pol x y) : Edge p.services pol x y ∧ y ∉ ns := by
+  cases pol with
+  | deps =>
+    obtain ⟨s', hs', hy, hk⟩ := e
+    rw [lookup_withServicesDisabled_services] at hs'
+    split at hs'
+    · cases hs'
+    · cases hl : lookup x p.services with
+      | none => rw [hl] at hs'; cases hs'
+      | some s =>
+        rw [hl] at hs'
+        simp only [Option.map_some, Option.some.injEq] at hs'
+        subst hs'
+        have hk' := mem_keys_withServicesDisabled_services.1 hk
+        exact ⟨⟨s, hl, (mem_keys_dropDeps hy).1, hk'.1⟩, hk'.2⟩
+  | dependents =>
+    obtain ⟨hx, s', hs', hxd⟩ := e
+    have hx' := mem_keys_withServicesDisabled_services.1 hx
+    rw [lookup_withServicesDisabled_services] at hs'
+    split at hs'
+    · cases hs'
+    · rename_i hyn
+      cases hl : lookup y p.services with
+      | none => rw [hl] at hs'; cases hs'
+      | some s =>
+        rw [hl] at hs'
+        simp only [Option.map_some, Option.some.injEq] at hs'
+        subst hs'
+        exact ⟨⟨hx'.1, s, hl, (mem_keys_dropDeps hxd).1⟩, hyn⟩
+  | ignore => exact e.elim
+
+/-- **disable, then select ⊆ select**: the closure computed after `WithServicesDisabled ns` is contained in the closure
+computed before it and avoids `ns` — disabling first can only shrink a selection (it cuts the paths through `ns`) -/
+theorem reach_after_disable {p : Proj} {ns names : List String} {pol : Policy} {x : String}
+    (h : Reach (withServicesDisabled p ns).services pol names x) : Reach p.services pol names x ∧ x ∉ ns := by
+  induction h with
+  | root hr hk =>
+    have := mem_keys_withServicesDisabled_services.1 hk
+    exact ⟨.root hr this.1, this.2⟩
+  | step _ e ih =>
+    have := edge_disable e
+    exact ⟨.step ih.1 this.1, this.2⟩
+
+/-- at the level of the operations: when both selections succeed, what is kept after disabling `ns` first is kept without
+disabling, and contains no name of `ns` -/
+theorem disable_then_select_subset {p : Proj} (g : Good p) (ns : List String) {names : List String} (hn : names ≠ [])
+    {pol : Policy} {q1 q2 : Proj} (e1 : withSelectedServices (withServicesDisabled p ns) names pol = .ok q1)
+    (e2 : withSelectedServices p names pol = .ok q2) (x : String) (hx : x ∈ keys q1.services) :
+    x ∈ keys q2.services ∧ x ∉ ns := by
+  have g' := (partition_step g (.disable ns) (q := withServicesDisabled p ns) rfl).1
+  have r := reach_after_disable ((selected_eq_closure g'.1 g'.2.2 hn e1 x).1 hx)
+  exact ⟨(selected_eq_closure g.1 g.2.2 hn e2 x).2 r.1, r.2⟩
+
+def chainProj : Proj :=
+  { services := [("a", exSvc "a" [] [("b", ⟨false, "c"⟩)]), ("b", exSvc "b" [] [("c", ⟨false, "c"⟩)]), ("c", exSvc "c" [] [])],
+    disabled := [], profiles := [], networks := [], volumes := [], secrets := [], configs := [] }
+
+/-- … and the inclusion is strict in general: `WithServicesDisabled` and `WithSelectedServices` do **not** commute.  On the chain
+`a → b → c` (optional edges) selecting `a` after disabling `b` keeps `a` alone, while selecting `a` first keeps `c` too -/
+theorem select_disable_do_not_commute :
+    ∃ (p : Proj) (ns names : List String) (pol : Policy), Good p ∧
+      keys (run p [.disable ns, .select names pol]).services ≠ keys (run p [.select names pol, .disable ns]).services :=
+  ⟨chainProj, ["b"], ["a"], .deps, ⟨by decide, by decide, by decide⟩, by decide⟩
+
 /-! ## non-vacuity -/
 
 example : Good fastPathProj := ⟨by decide, by decide, by decide⟩
